@@ -19,7 +19,7 @@ fn plan<T: Subj>(tier: Tier) -> Plan<T> {
         p.c = p.c.iter().step_by(37).cloned().collect();
     }
     let mut degrees: Vec<u64> = (1..=17).collect();
-    degrees.extend([31, 32, 33, 40, 63, 64, 65, bits as u64 / 2, bits as u64 - 1, bits as u64, bits as u64 + 1, 1000, (1u64 << 32) - 1]);
+    degrees.extend([31, 32, 33, 40, 63, 64, 65, 80, 81, 100, bits as u64 / 4, bits as u64 / 3, bits as u64 / 2, bits as u64 - 1, bits as u64, bits as u64 + 1, 1000, (1u64 << 32) - 1]);
     degrees.sort();
     degrees.dedup();
     let idx: Vec<u64> = if bits <= 64 { (0..bits as u64).collect() } else { plans::bit_indices(bits, T::DIGIT_BITS, Tier::Quick) };
@@ -36,22 +36,43 @@ fn fwd_plan<T: Subj>(tier: Tier) -> Plan<T> {
     p
 }
 
-/// Roots above 128 bits (the Newton fix-point path): x in {r^n - 1, r^n, r^n + 1} for small and
-/// power-of-two-neighbour r and the exact n-th roots of the range, every listed degree, plus MAX,
-/// 2^(BITS-1) +- 1, 2^128, 2^128 + 1 and (signed) their negations
-fn roots_plan<T: Subj>(tier: Tier) -> Plan<T> {
+/// Roots above 128 bits (the Newton fix-point path).  One plan of range boundaries x landmark degrees,
+/// and for every degree n (all of 1..=130, then landmarks up to 2^32 - 1) a plan with
+/// x in {r^n - 1, r^n, r^n + 1} for small r, r next to powers of two, and the exact n-th roots of the
+/// range, explored with degrees n - 1, n, n + 1.  Signed: the negations too.
+fn roots_plans<T: Subj>(tier: Tier) -> Vec<Plan<T>> {
     let bits = T::BITS as u64;
     let nb = T::bytes();
     let ti = T::ti();
     let max = ti.max::<BigRef>();
     let big = |v: i128| BigRef::from_i128(v);
-    let mut degrees: Vec<u64> = (1..=12).collect();
-    degrees.extend([15, 16, 17, 31, 32, 33, 40, 63, 64, 65, 100, 127, 128, 129, 255, 256, 257, 258, 300, bits / 2, bits - 1, bits, bits + 1, 1000, 65535, 65536, 65537, (1u64 << 32) - 1]);
-    degrees.sort();
-    degrees.dedup();
-    let mut vals: Vec<BigRef> = vec![max.clone(), max.sub(&big(1)), BigRef::pow2(bits - 1).sub(&big(1)), BigRef::pow2(bits - 2).add(&big(1)), BigRef::pow2(128), BigRef::pow2(128).add(&big(1)), BigRef::pow2(128).sub(&big(1)), big(0), big(1), big(2)];
-    let small_r: Vec<BigRef> = [2i128, 3, 5, 7, 10, 255, 256, 257, 65535, 65536, 65537].iter().map(|x| big(*x)).collect();
-    for &n in &degrees {
+    let to_plan = |label: &str, vals: Vec<BigRef>, degrees: Vec<u64>| -> Plan<T> {
+        let mut bytes: Vec<Vec<u8>> = Vec::new();
+        for v in &vals {
+            bytes.push(v.to_le_bytes_wrapped(nb));
+            if T::SIGNED {
+                bytes.push(v.neg().to_le_bytes_wrapped(nb));
+            }
+        }
+        Plan::new(label, &sets::dedup(bytes), &[], &[]).with_aux(Aux::K(21), degrees)
+    };
+    let mut all_degrees: Vec<u64> = (1..=130).collect();
+    all_degrees.extend([255, 256, 257, 258, 300, bits / 4, bits / 3, bits / 2, bits - 1, bits, bits + 1, 1000, 65535, 65536, 65537, (1u64 << 32) - 1]);
+    all_degrees.sort();
+    all_degrees.dedup();
+    let mut plans = Vec::new();
+    // range boundaries against the landmark degrees
+    let common = vec![max.clone(), max.sub(&big(1)), BigRef::pow2(bits - 1).sub(&big(1)), BigRef::pow2(bits - 2).add(&big(1)), BigRef::pow2(128), BigRef::pow2(128).add(&big(1)), BigRef::pow2(128).sub(&big(1)), big(0), big(1), big(2)];
+    let landmarks: Vec<u64> = all_degrees.iter().cloned().filter(|n| *n <= 17 || [31, 32, 33, 40, 63, 64, 65, 80, 81, 100, 127, 128, 129].contains(n) || *n >= 255).collect();
+    plans.push(to_plan("ROOTS: range boundaries x landmark degrees", common, landmarks));
+    let mut small_r: Vec<BigRef> = [2i128, 3, 5, 7, 10, 255, 256, 257, 65535, 65536, 65537].iter().map(|x| big(*x)).collect();
+    if tier == Tier::Thorough {
+        for k in [1u64, 7, 9, 31, 32, 33, 63, 64, 65] {
+            small_r.push(BigRef::pow2(k).add(&big(1)));
+            small_r.push(BigRef::pow2(k).sub(&big(1)));
+        }
+    }
+    for &n in &all_degrees {
         if n > bits {
             continue;
         }
@@ -60,12 +81,7 @@ fn roots_plan<T: Subj>(tier: Tier) -> Plan<T> {
         for d in -1..=1i128 {
             rs.push(top.add(&big(d)));
         }
-        if tier == Tier::Thorough {
-            for k in [1u64, 7, 8, 9, 31, 32, 33, 63, 64, 65] {
-                rs.push(BigRef::pow2(k).add(&big(1)));
-                rs.push(BigRef::pow2(k).sub(&big(1)));
-            }
-        }
+        let mut vals: Vec<BigRef> = Vec::new();
         for r in rs {
             if r < big(2) || r.bit_len() * n > bits + n {
                 continue;
@@ -78,23 +94,24 @@ fn roots_plan<T: Subj>(tier: Tier) -> Plan<T> {
                 }
             }
         }
-    }
-    let mut bytes: Vec<Vec<u8>> = Vec::new();
-    for v in &vals {
-        bytes.push(v.to_le_bytes_wrapped(nb));
-        if T::SIGNED {
-            bytes.push(v.neg().to_le_bytes_wrapped(nb));
+        if vals.is_empty() {
+            continue;
         }
+        let degs: Vec<u64> = [n.saturating_sub(1), n, n + 1].iter().cloned().filter(|d| *d >= 1 && *d <= u32::MAX as u64).collect();
+        plans.push(to_plan(&format!("ROOTS degree {}: r^n - 1, r^n, r^n + 1", n), vals, degs));
     }
-    let bytes = sets::dedup(bytes);
-    Plan::new("ROOTS: r^n - 1, r^n, r^n + 1 and range boundaries", &bytes, &[], &[]).with_aux(Aux::K(21), degrees)
+    plans
 }
 
 macro_rules! roots {
     ($run:expr, $fam:ident, $n:literal) => {{
         let tier = $run.tier;
-        $run.explore(&t::$fam::u_roots::<$n, BigRef>(), &roots_plan::<$fam::U<$n>>(tier));
-        $run.explore(&t::$fam::i_roots::<$n, BigRef>(), &roots_plan::<$fam::I<$n>>(tier));
+        for p in roots_plans::<$fam::U<$n>>(tier) {
+            $run.explore(&t::$fam::u_roots::<$n, BigRef>(), &p);
+        }
+        for p in roots_plans::<$fam::I<$n>>(tier) {
+            $run.explore(&t::$fam::i_roots::<$n, BigRef>(), &p);
+        }
     }};
 }
 
@@ -111,7 +128,23 @@ macro_rules! cfg {
 
 fn main() {
     let mut run = Run::from_args("C18", "c18");
-    vcore::core_configs!(cfg, &mut run);
+    if run.tier == Tier::Thorough {
+        vcore::core_configs!(cfg, &mut run);
+    } else {
+        // quick: a reduced list (the forwarders and the Integer / Signed contracts are generic over the
+        // digit type; every digit type appears with one and with several digits)
+        cfg!(&mut run, d8, 1, i128);
+        cfg!(&mut run, d8, 2, i128);
+        cfg!(&mut run, d8, 3, i128);
+        cfg!(&mut run, d16, 1, i128);
+        cfg!(&mut run, d16, 3, BigRef);
+        cfg!(&mut run, d32, 2, BigRef);
+        cfg!(&mut run, d32, 3, BigRef);
+        cfg!(&mut run, d64, 1, BigRef);
+        cfg!(&mut run, d64, 2, BigRef);
+        cfg!(&mut run, d64, 3, BigRef);
+        cfg!(&mut run, d8, 17, BigRef);
+    }
     // the Newton path of the roots needs more than 128 bits; u8 digits wider than 257 bits make the
     // degree itself exceed one digit
     roots!(&mut run, d8, 17);
